@@ -50,7 +50,7 @@ FAMILIES = [["True", "False"], ["1", "big"], ["1.5", "1"], ["a", "empty"], ["dat
             ["np.bool"], ["np.int"], ["np.float", "np.nan"], ["np.dt"], ["np.str"], ["True", "1"], ["1", "a"], ["date", "datetime"],
             ["True", "1.5"], ["a", "1.5"], ["1.5", "inf", "-inf"], ["inf", "-0.0", "huge", "1"],
             ["stamp"], ["day"], ["stamp", "datetime"], ["day", "date"],
-            ["np.nat"], ["np.nat"], ["np.nat", "np.dt"], ["np.nat", "date"], ["np.tdnat"], ["complex"], ["complex", "1.5"], ["complex", "1"]]
+            ["np.nat"], ["np.nat"], ["np.nat", "np.dt"], ["np.nat", "date"], ["np.tdnat"], ["date", "1"], ["date", "a"], ["datetime", "1.5"], ["date", "timedelta"], ["complex"], ["complex", "1.5"], ["complex", "1"]]
 
 
 def gen_case(rng, tier):
@@ -223,6 +223,28 @@ def impl(case):
         laws["replace_na"] = fill is None or (len(r) == len(v) and not any(bool(x) for x in r.is_na()) and
                                               all((pyeq(a, b) if not m else True) for a, b, m in zip(tl, rl, na)))
         laws["receiver_unchanged"] = [bool(x) for x in v.is_na()] == na
+        # equal agrees with the ELEMENTS: a copy in which one non-missing element is another value (a string with a
+        # character appended, a number one larger, the other boolean, the next day) is not equal, whichever side is asked
+        pos = [i for i, m_ in enumerate(na) if not m_]
+        if pos and res["dclass"] in ("str", "int", "float", "bool", "date", "datetime"):
+            i = pos[len(pos) // 2]
+            w = v.copy()
+            try:
+                if res["dclass"] == "str":
+                    w[i] = str(v[i]) + "X"
+                elif res["dclass"] == "bool":
+                    w[i] = not bool(v[i])
+                elif res["dclass"] in ("date", "datetime"):
+                    w[i] = v[i] + np.timedelta64(1, "D")
+                elif res["dclass"] == "float" and not np.isfinite(v[i]):
+                    w[i] = 0.5
+                else:
+                    w[i] = v[i] + 1
+                differs = not bool(w[i] == v[i])
+            except Exception:
+                differs = False
+            if differs:
+                laws["equal_sees_elements"] = (not bool(v.equal(w))) and (not bool(w.equal(v)))
         if case["dtype"] is None and "nan" in case["names"] and not any(n in NAT_NAMES for n in case["names"]):
             # the two spellings of a missing element in a Python list, None and float NaN, denote the same thing: the same
             # list with NaN written as None gives the same kind of vector, missing at the same positions
